@@ -14,15 +14,15 @@ claimed = {
  'C03': dict(technique='bounded exhaustive enumeration of well-typed program families plus every single-fault mutation, against a reference type checker',
              text='13 families of well-typed programs are enumerated completely; every program must get no error diagnostic and the types recorded for its expressions must equal the reference type checker\'s; every single-fault mutant (about 95 mutators applied at every position) must get at least one error diagnostic. Both directions on every element, no sampling.', ref='5/C03'),
  'C04': dict(technique='bounded exhaustive differential enumeration (interpreter vs VM)',
-             text='Every accepted program of the enumerated families is run on both backends and the observation records are compared; complete enumeration within the bounds.', ref='5/C04'),
- 'C05': dict(technique='bounded exhaustive enumeration of input texts (all short strings over a 48-symbol alphabet, all short token sequences in 6 contexts, all single-token edits and prefixes of the shipped corpus, nesting families to depth 1000, import graphs) with guarded child-process probes',
+             text='Every accepted program of the enumerated families (the shared semantic families, the analyzer-defined expression domain, and every value x type x route program of the cast universe) is run on both backends and the observation records are compared; complete enumeration within the bounds.', ref='5/C04'),
+ 'C05': dict(technique='bounded exhaustive enumeration of input texts (all short strings over a 48-symbol alphabet, all short token sequences in 6 contexts, all single-token edits (incl. lexer errors behind every token) and prefixes of the shipped corpus, nesting families to depth 1000, import graphs, every import kind x name x module x use) with guarded child-process probes judged by processor time',
              text='Parse and Analyze must return on every element of the enumerated input spaces, also when the text is served as an imported module; panics are recovered and reported, non-returning or stack-exhausting inputs are detected in a guarded child process and attributed to the culprit function.', ref='5/C05'),
  'C06': dict(technique='bounded exhaustive enumeration of strings and lexeme adjacencies against a reference lexer transcribed from grammar.ebnf',
              text='Every string of length <= 3/4 over a 48-symbol alphabet and every pair/triple of ~120 lexemes joined by each separator: token kinds, values and inclusive spans of the real lexer equal the reference lexer; lexical errors are errors.', ref='5/C06'),
  'C07': dict(technique='bounded exhaustive enumeration of operator pairs/triples/quadruples and layout variants against an independent precedence-climbing reference',
              text='All ordered pairs, triples (thorough: quadruples) of the binary operators, `as` and assignment operators with prefix/postfix wrappers: the real parse tree equals the tree fixed by the documented operator table; every separator at every gap, redundant parentheses and trailing commas leave the tree unchanged.', ref='5/C07'),
  'C08': dict(technique='bounded exhaustive enumeration of interrupt/diagnostic/syntax-error positions over program families, single-fault programs and all single-character edits of base texts',
-             text='Every interrupt span of programs ending in a throw or fatal error (both backends) is consistent with the text and within the culprit known from the IR printer; first diagnostics of single-fault programs lie within the culprit in several layouts; every syntax error and diagnostic of every single-character edit of the base texts has a consistent span and renders without panic.', ref='5/C08'),
+             text='Every interrupt span of programs ending in a throw or fatal error (both backends) is consistent with the text and within the culprit known from the IR printer; first diagnostics of single-fault programs lie within the culprit in several layouts; type-flow culprits (wrong list/option/object/function type from every kind of source reaching every kind of use site); every culprit and interrupt once more inside an imported module whose file the position must name; every syntax error and diagnostic of every single-character edit of the base texts has a consistent span and renders without panic.', ref='5/C08'),
  'C09': dict(technique='bounded exhaustive enumeration of (program, limit triple, iteration count) over a limit lattice with a differential oracle',
              text='Every program of a 4-parameter family is run under every limit triple of a lattice on the VM and every call limit on the interpreter; never a host panic, interrupt kind corresponds to the small limit, monotone in every limit, never stopped when the reference call depth is within the limit, residue zero. Complete within the bounds.', ref='5/C09'),
  'C10': dict(technique='stateless DFS over all thread schedules and cancellation points of the real VM within a delay bound (controlled scheduler); exhaustive cancellation-poll enumeration for the interpreter',
@@ -30,23 +30,23 @@ claimed = {
  'C11': dict(technique='bounded exhaustive enumeration of control-flow nestings vs. reference evaluator on both backends',
              text='All nestings up to depth 3/4 of 12 control constructs around 7 kinds of exit, each with and without a trailing uncaught throw, run on VM and interpreter and compared with the reference evaluator (output, outcome, caught message/position, VM residue).', ref='5/C11'),
  'C12': dict(technique='bounded exhaustive enumeration of (value, type, route) triples against a reference cast/conformance model',
-             text='All values of depth <= 2 x all types of depth <= 2 through every route (DeepCast of both value libraries with both allowCasts, `as`, annotated let, parse_json, host arguments and return values), compared with an independent refcast: admitted iff conforming after permitted conversions, result deeply conforms, exact values unchanged, rejection catchable with the offending path.', ref='5/C12'),
+             text='All values of depth <= 2 x all types of depth <= 2 through every route (DeepCast of both value libraries with both allowCasts, `as`, annotated let, parse_json, host arguments through SpawnSync and SpawnAsync, return values), compared with an independent refcast: admitted iff conforming after permitted conversions, result deeply conforms, exact values unchanged, rejection catchable with the offending path.', ref='5/C12'),
  'C13': dict(technique='bounded exhaustive enumeration of value pairs/triples and mutation sequences against structural reference equality',
-             text='Per static type all values over a leaf alphabet: reflexivity, symmetry, transitivity and agreement with structural equality on all pairs/triples; clone independence under all mutation sequences of length <= 2; JSON round trip under the type; identical display in both runtimes; the same laws through programs on both backends.', ref='5/C13'),
+             text='Per static type all values over a leaf alphabet: reflexivity, symmetry, transitivity and agreement with structural equality on all pairs/triples; clone independence under all mutation sequences of length <= 2; JSON round trip under the type; identical display in both runtimes (field names chosen to order differently under different sort keys); the same laws through programs on both backends.', ref='5/C13'),
  'C14': dict(technique='exhaustive exploration of Go-map iteration orders (choice points injected by the overlay rewriter) and of single-threaded schedules, within a deviation bound',
-             text='On a build where every map range is a choice point, all executions of the whole pipeline with <=1/<=2 deviating ranges (rotations of the real order) and all schedules of main core vs polling Wait within delay bound 2/3 must give identical diagnostics, output and outcome; plus repeated rounds in one process.', ref='5/C14'),
+             text='On a build where every map range is a choice point, all executions of the whole pipeline with <=1/<=2 deviating ranges (rotations of the real order) and all schedules of main core vs polling Wait within delay bound 2/3 must give identical diagnostics, output and outcome (incl. diagnostics-heavy programs with several offending fields/arguments); plus repeated rounds in one process and one compile output / one analysed program run three times.', ref='5/C14'),
  'C15': dict(technique='bounded exhaustive enumeration of module graphs (visibility configurations, overlapping names, all subsets of candidate import edges) against a reference linker',
-             text='Every visibility configuration x import subset, every pair of library shapes with overlapping private names, and every subset of 12 import edges over 4 modules (cycles, self imports, missing modules) go through the real analyzer and both backends; verdict and output must equal the reference linker.', ref='5/C15'),
+             text='Every visibility configuration x import subset, every pair of library shapes with overlapping private names, every subset of 12 import edges over 4 modules (cycles, self imports, missing modules) and every assignment of ordered import lists (<= 2) to four modules behind the entry module go through the real analyzer and both backends; verdict and output must equal the reference linker.', ref='5/C15'),
  'C18': dict(technique='exhaustive enumeration of the analyzer\'s member table x receiver values x boundary argument tuples on both runtimes',
-             text='The member table is read from the analyzer at run time; every member x receiver in {empty, one, many} x boundary arguments is called on both runtimes directly and through one-line programs: exists, returns the advertised kind, matches reference semantics, negative indices from the end, out-of-range answers with an interrupt, never a host panic.', ref='5/C18'),
+             text='The member table is read from the analyzer at run time; every member x receiver in {empty, one, many} x boundary arguments is called on both runtimes directly and through one-line programs: exists, returns the advertised kind, matches reference semantics, negative indices from the end, out-of-range answers with an interrupt, never a host panic; results are fresh (storing a result or the plainest literal of its type in a typed slot and assigning through it does not change what an equal receiver answers).', ref='5/C18'),
  'C19': dict(technique='bounded exhaustive enumeration of programs through print -> parse -> analyse -> run round trips and through the optimizer (differential on the real VM/interpreter)',
-             text='Every program of the shared families plus printer-centric programs: both printers must yield text that parses, is accepted, behaves identically and is a fixed point; the optimizer output must behave identically on both backends.', ref='5/C19'),
+             text='Every program of the shared families plus printer-centric programs and every block-like statement x every kind of following statement start: both printers must yield text that parses, is accepted, behaves identically and is a fixed point; the optimizer output must behave identically on both backends.', ref='5/C19'),
  'C16': dict(technique='explicit enumeration of all host-call histories up to a depth x all schedules within a delay bound, against the reference evaluator',
-             text='All histories of SpawnSync calls over a call alphabet up to a depth on one live VM, each under all schedules within the delay bound; per-call results equal the reference model, no residue, failure instead of blocking after a failed call.', ref='5/C16'),
+             text='All histories of SpawnSync/SpawnAsync calls over a 16-call alphabet (arguments, failures, spawning calls, loops over long-lived lists, heap state) up to a depth on one live VM, each under all schedules within the delay bound; per-call results equal the reference model, no residue, failure instead of blocking after a failed call.', ref='5/C16'),
  'C17': dict(technique='stateless DFS over all thread interleavings of the real VM within a delay bound (controlled scheduler over lock/channel/select/sleep/spawn points)',
-             text='All schedules within the delay bound for programs spawning 1-3 cores; each spawned function runs exactly once with spawn-time arguments, Wait returns only after all cores finished, fatal interrupt reported and the rest cancelled, no deadlock. Unsynchronised accesses are outside the scheduler model (auxiliary race-detector pass).', ref='5/C17'),
+             text='All schedules within the delay bound for programs spawning 1-3 cores; each spawned function runs exactly once with spawn-time arguments, Wait returns only after all cores finished, fatal interrupt reported and the rest cancelled, no deadlock; a host whose output sink is locked per write still receives every print whole. Unsynchronised accesses are outside the scheduler model (auxiliary race-detector pass).', ref='5/C17'),
  'C20': dict(technique='exhaustive exploration of the transformer\'s random draws (scripted rand.Source as choice points) within a deviation bound, differential on the real pipeline',
-             text='Every draw of the fuzzer transformer is a choice point over an alphabet reaching every Intn index and Shuffle position; all draw sequences with <=1/<=2 non-default draws for 1-3 passes over hand-written inputs and shipped examples; every distinct variant must be accepted and behave like the original on the VM.', ref='5/C20'),
+             text='Every draw of the fuzzer transformer is a choice point over an alphabet reaching every Intn index and Shuffle position; all draw sequences with <=1/<=2 non-default draws for 1-3 passes over hand-written inputs and shipped examples, plus the pass-by-pass closure (<= 1 non-default draw per pass, 3 passes, trees told apart by full structure) over tiny inputs; every distinct variant must be accepted and behave like the original on the VM.', ref='5/C20'),
 }
 checks = []
 for pid, c in claimed.items():
